@@ -115,8 +115,10 @@ def coll_case(rep, nt, qt, M, tl, tr):
         bad.append('Q-exactness')
     if bad:
         rep.replayed += 1
-        # concrete confirmation in exact rational arithmetic of the real tables
-        conf = confirm(c, tl, tr, qt, M)
+        # structural clauses were evaluated concretely on the real tables already; the solver-refuted exactness clauses are confirmed by an
+        # independent exact-rational evaluation
+        structural = [b for b in bad if b not in ('weights-exactness', 'Q-exactness')]
+        conf = structural + [b for b in confirm(c, tl, tr, qt, M) if b not in structural]
         if conf:
             snapped = (abs(tl) >= 100 * (tr - tl)) and ('end-point-membership' in conf or 'weights-exactness' in conf)
             key = f'{PID}/large-offset-node-snapping' if snapped else f'{PID}/{conf[0]}/{nt}/{qt}'
@@ -149,6 +151,9 @@ def confirm(c, tl, tr, qt, M):
                     bad.append('Q-exactness')
     if np.any(c.Qmat[0, :] != 0) or np.any(c.Qmat[:, 0] != 0):
         bad.append('zero-padding')
+    scale = float(Ln)
+    if not np.allclose(c.Smat[1:, 1:], np.diff(np.vstack([np.zeros(M), c.Qmat[1:, 1:]]), axis=0), atol=1e-13 * scale, rtol=0):
+        bad.append('S-is-row-difference-of-Q')
     return bad
 
 
